@@ -11,7 +11,7 @@ import tapelib as T
 LEVEL_TEXT = ("Lean theorems (Props/C06.lean): sector-level frame lemmas of the model (putSector touches one sector, setBat touches "
               "bytes 1..160 of one sector only and only where the table changed, no-op perform + save = load's payloads); tie/oracle: "
               "pre-images from tool histories, from the independent writer (fragmented, deleted entries, extra reserved blocks, "
-              "table tail 00/FF) and the bundled real image, then arbitrary batches; byte-level frame check of the result.")
+              "table tail all 00 or a run of distinct bytes) and the bundled real image, then arbitrary batches; byte-level frame check of the result.")
 
 CL = {"old_files", "frame", "stored_match", "noop_identity", "fsck", "refusal_noop"}
 
